@@ -92,9 +92,7 @@ def gen_case(rng):
         n += 1
         case["elements"].append({"tasks": [{
             "name": name, "clients": rng.choice([1, 2]), "warmup_iterations": 0, "iterations": rng.choice([1, 3]), "requests": [[{"wire": 1}]],
-            "composite": [{"stream": [{"name": f"{name}-a", "operation-type": "raw-request", "path": f"/_verif/sub/{name}-a"}]},
-                          {"stream": [{"name": f"{name}-b", "operation-type": "raw-request", "path": f"/_verif/sub/{name}-b"}]},
-                          {"name": f"{name}-c", "operation-type": "raw-request", "path": f"/_verif/sub/{name}-c"}],
+            "composite": gen_composite(rng, name),
             "svc": {"mode": "const", "base": 0.1, "seed": 1},
         }]})
     r = rng.random()
@@ -381,12 +379,46 @@ def check(ctx, case, tr, problems, feats):
         problems.append(("no-record-without-request", f"records for requests that were never sampled: {ghosts[:4]}", None))
     for name, t in composite_tasks.items():
         n_req = sum(1 for e in tr.rec.logical if e["task"] == name and "result" in e)
-        for sub in ("a", "b", "c"):
+        for leaf in composite_leaves(t["composite"]):
             ctx.clause("dependent-timings")
-            got = dep_counts.get((name, f"{name}-{sub}"), 0)
+            got = dep_counts.get((name, leaf), 0)
             if got != n_req:
-                problems.append(("dependent-timings", f"composite task {name}: {n_req} requests executed but {got} service_time records for sub-request {name}-{sub}", None))
+                problems.append(("dependent-timings", f"composite task {name} (structure {json.dumps(t['composite'])[:300]}): {n_req} requests executed but {got} service_time records for sub-request {leaf}", None))
         feats.add("composite")
+
+
+def gen_composite(rng, name):
+    """A request structure for the composite operation: sub-requests and (nested) streams in any order on every level - also a sub-request
+    that follows streams which follow sub-requests. Leaves are named <task>-<letter>."""
+    letters = iter("abcdefghijklmnop")
+
+    def leaf():
+        l = next(letters)
+        return {"name": f"{name}-{l}", "operation-type": "raw-request", "path": f"/_verif/sub/{name}-{l}"}
+
+    def level(depth):
+        items = []
+        for _ in range(rng.randint(1, 3)):
+            if depth < 2 and rng.random() < 0.45:
+                items.append({"stream": level(depth + 1)})
+            else:
+                items.append(leaf())
+        return items
+
+    shape = rng.choice(["classic", "op-streams-op", "random", "random"])
+    if shape == "classic":
+        return [{"stream": [leaf()]}, {"stream": [leaf()]}, leaf()]
+    if shape == "op-streams-op":
+        return [leaf(), {"stream": [leaf(), leaf()]}, {"stream": [leaf()]}, leaf()]
+    return level(0)
+
+
+def composite_leaves(items):
+    for it in items:
+        if "stream" in it:
+            yield from composite_leaves(it["stream"])
+        else:
+            yield it["name"]
 
 
 def throughput_docs(tr):
